@@ -1,4 +1,7 @@
 import Rio.Model.Pack
+import Rio.Proofs.DevModes
+import Rio.Proofs.PathTheory
+import Rio.Generated.Facts
 /-!
 # C02 — Pack then unpack reproduces the fileset exactly
 
@@ -60,5 +63,62 @@ theorem C02_pack_seconds (ff : PackFilter) (e : FsEntry) (b b' : Bucket) (m : Me
   cases hh : metaToTarHdr { m with mtime := ⟨m.mtime.sec, 0⟩ } e.chash with
   | none => simp [hh] at h
   | some x => simp only [hh] at h; injection h with h; exact h.symm
+
+
+/-- a trailing `/` (how directories are written into the header) does not change what `MustRelPath` builds -/
+theorem mustRel_trailing_slash (s : Bytes) (h : s.head? ≠ some slash) (h0 : s ≠ []) :
+    mustRel (s ++ [slash]) = mustRel s := by
+  have h' : (s ++ [slash]).head? ≠ some slash := by
+    cases s with
+    | nil => exact absurd rfl h0
+    | cons x xs => simpa using h
+  rw [mustRel_eq _ h', mustRel_eq _ h]
+  have : s ++ [slash] = s ++ slash :: [] := rfl
+  rw [this, splitOn_append_sep]
+  have e : splitOn slash s ++ splitOn slash [] = splitOn slash s ++ [[]] ++ [] := by simp [splitOn]
+  rw [e, cleanComps_skip_mid false (splitOn slash s) [[]] [] (by simp)]
+  simp
+
+/-- **Header round trip, the name**: the name written into the header (`String()`, plus `/` for a directory) is
+    parsed back by `TarHdrToMetadata` to the very same path value (split index included), for every canonical name. -/
+theorem C02_hdr_name (m : Meta) (ch : Bytes) (h : TarHdr) (m' : Meta) (hc : m.name.Clean)
+    (h1 : metaToTarHdr m ch = some h) (h2 : tarHdrToMeta h = .meta_ m') : m'.name = m.name := by
+  unfold metaToTarHdr at h1
+  cases hk : fsTypeToTarType m.kind with
+  | none => simp [hk] at h1
+  | some t =>
+    simp only [hk, Option.map_some, Option.some.injEq] at h1
+    subst h1
+    have hparse : mustRel (if m.kind = Kind.dir then m.name.str ++ [slash] else m.name.str) = some m.name := by
+      obtain ⟨cs, hcs, e⟩ := hc
+      split
+      · rw [mustRel_trailing_slash _ (by rw [e]; exact str_head_not_slash hcs) (by
+          rw [e]; intro e0
+          rcases (ofComps cs).str_cases' with ⟨_, e1⟩ | ⟨e1, e2⟩ | ⟨_, e2⟩
+          · rw [e1] at e0; cases e0
+          · rw [e2] at e0; exact e1 e0
+          · rw [e2] at e0; cases e0)]
+        rw [e]; exact mustRel_str hcs
+      · rw [e]; exact mustRel_str hcs
+    unfold tarHdrToMeta at h2
+    simp only [hparse, C02_type_roundtrip m.kind t hk] at h2
+    injection h2 with h2
+    subst h2
+    rfl
+
+/-- **Device numbers survive `mknod` + `lstat`**: `devModesSplit (devModesJoin major minor) = (major, minor)` for
+    12-bit majors and 20-bit minors (the kernel's `dev_t` layout). -/
+theorem C02_dev_roundtrip (major minor : Nat) (h1 : major < 4096) (h2 : minor < 2 ^ 20) :
+    devSplit (devJoin major minor) = (major, minor) :=
+  dev_roundtrip major minor h1 h2
+
+/-- T-fact tie: the two expressions in the source are the ones the model `devJoin` / `devSplit` mirrors -/
+theorem C02_dev_tie :
+    Generated.devModesJoinExpr = "uint32(((minor & 0xfff00) << 12) | ((major & 0xfff) << 8) | (minor & 0xff))" ∧
+    Generated.devModesSplitExpr = "int64((rdev >> 8) & 0xfff) ; int64((rdev & 0xff) | ((rdev >> 12) & 0xfff00))" := by
+  decide
+
+/-- the layout matters beyond 8 bits (a test): minor 300 / major 259 -/
+example : devSplit (devJoin 259 70000) = (259, 70000) ∧ devJoin 136 300 = 0x10882c := by decide
 
 end Rio
